@@ -1357,7 +1357,7 @@ func (s *State) evalStringInfixExpression(operator token.Type, left, right objec
 		return object.String{Value: strings.Repeat(leftVal, int(rightVal))}
 	default:
 		return s.Errorf("unknown operator: %s %s %s",
-			left.Type(), operator, right.Type())
+			object.Value(left).Type(), operator, object.Value(right).Type())
 	}
 }
 
@@ -1391,7 +1391,7 @@ func (s *State) evalArrayInfixExpression(operator token.Type, left, right object
 		return object.NewArray(append(leftVal, rightArr...))
 	default:
 		return s.Errorf("unknown operator: %s %s %s",
-			left.Type(), operator, right.Type())
+			object.Value(left).Type(), operator, object.Value(right).Type())
 	}
 }
 
@@ -1403,7 +1403,7 @@ func (s *State) evalMapInfixExpression(operator token.Type, left, right object.O
 		return leftMap.Append(rightMap)
 	default:
 		return s.Errorf("unknown operator: %s %s %s",
-			left.Type(), operator, right.Type())
+			object.Value(left).Type(), operator, object.Value(right).Type())
 	}
 }
 
